@@ -3,29 +3,125 @@ package main
 func init() {
 	Register(&Property{
 		ID: "C11",
-		Decides: "(R11.1) the block writer's Save is reached only after the computed manifest's hash was compared equal to the ACCEPT majority's new-block hash; " +
-			"(R11.2) the processor's Save is reached only for a height strictly above previousSaved and for the matching proposal fact, previousSaved is stored before Save and only there; " +
-			"(R11.3) Save/Process are one-shot (issaved/isprocessed tested); (R11.4) saveBlock only for MAJORITY results.",
-		NotDecided: "cancellation races inside the block writer; that the manifest was computed from the proposal's operations (C10).",
+		Decides: "(R11.1) the block writer's Save is reached only after the computed manifest was tested non-nil and its hash compared equal to the ACCEPT majority's new-block hash; " +
+			"(R11.2) the processor's Save is reached only for a height strictly above previousSaved and for the matching proposal fact, previousSaved is stored (with that height) before Save, only there, under the processors' lock; " +
+			"(R11.3) DefaultProposalProcessor.Save/Process are one-shot (issaved/isprocessed tested and set under processlock, issaved set before the inner save); " +
+			"(R11.4) every saveBlock call is reached only for a MAJORITY result; (R11.5) who may call the block writer's Save / the processor's Save.",
+		NotDecided: "cancellation races inside the block writer; that the manifest was computed from the proposal's operations (C10); behaviour of ProposalProcessor implementations other than DefaultProposalProcessor.",
 		Run:        runC11,
 	})
 }
 
 func runC11(c *Ctx) {
-	c.Rule("R11.2a", "MustPass")
+	// R11.1 --------------------------------------------------------------------------------
+	c.Rule("R11.1", "MustPass")
+	if fn := c.Need("isaac.(*DefaultProposalProcessor).save"); fn != nil {
+		w := c.CallsD(fn, "p.writer.Save(*)")
+		c.MP(fn, "writer.Save: manifest hash == majority new block", w, 1,
+			GTrue("p.manifest.Hash().Equal(avp.BallotMajority().NewBlock())"),
+			GTrue("avp.BallotMajority().NewBlock().Equal(p.manifest.Hash())"))
+		c.MP(fn, "writer.Save: manifest not nil", w, 1, GNonNil("p.manifest"))
+		c.MP(fn, "writer.Save: accept voteproof handed to writer", w, 1, GOk("p.writer.SetACCEPTVoteproof(ctx, avp)"))
+		c.MP(fn, "writer.Save: init voteproof handed to writer", w, 1, GOk("p.writer.SetINITVoteproof(ctx, p.ivp)"))
+		c.MP(fn, "success exit: writer.Save succeeded", c.SuccessReturns(fn), 1, GOk("p.writer.Save(*)"))
+	}
+	// R11.2 --------------------------------------------------------------------------------
 	if fn := c.Need("isaac.(*ProposalProcessors).save"); fn != nil {
 		saves := c.CallsD(fn, "pps.p.Save(*)")
+		c.Rule("R11.2a", "MustPass")
 		c.MP(fn, "call ProposalProcessor.Save: height > previousSaved", saves, 1,
 			GCmp("avp.Point().Height()", ">", "pps.previousSaved"))
 		c.Rule("R11.2b", "MustPass")
 		c.MP(fn, "call ProposalProcessor.Save: fact hash equal", saves, 1,
-			GTrue("pps.p.Proposal().Fact().Hash().Equal(facthash)"))
+			GTrue("pps.p.Proposal().Fact().Hash().Equal(facthash)"), GTrue("facthash.Equal(pps.p.Proposal().Fact().Hash())"))
 		c.Rule("R11.2c", "MustPass")
 		c.MP(fn, "call ProposalProcessor.Save: processor not nil", saves, 1, GNonNil("pps.p"))
 		c.Rule("R11.2d", "MustPass")
 		c.MP(fn, "call ProposalProcessor.Save: previousSaved stored first", saves, 1, GStored("&pps.previousSaved"))
+		c.ArgIs(fn, "call ProposalProcessor.Save: the same voteproof", saves, 1, 1, "avp")
+		st := c.StoresD(fn, "&pps.previousSaved")
 		c.Rule("R11.2e", "MustPass")
-		c.MP(fn, "store previousSaved: height > previousSaved", c.StoresD(fn, "&pps.previousSaved"), 1,
+		c.MP(fn, "store previousSaved: height > previousSaved", st, 1,
 			GCmp("avp.Point().Height()", ">", "pps.previousSaved"))
+		c.MP(fn, "store previousSaved: fact hash equal", st, 1,
+			GTrue("pps.p.Proposal().Fact().Hash().Equal(facthash)"), GTrue("facthash.Equal(pps.p.Proposal().Fact().Hash())"))
+		c.Rule("R11.2f", "Dependence")
+		c.StoredIs(fn, "store previousSaved: value is the voteproof's height", st, 1, "avp.Point().Height()")
+		c.Rule("R11.2g", "MustPass")
+		c.MP(fn, "success exit: processor Save succeeded", c.SuccessReturns(fn), 1, GOk("pps.p.Save(*)"))
 	}
+	c.Rule("R11.2h", "WhoMayWrite")
+	c.OnlyIn("store ProposalProcessors.previousSaved", c.WhoStores("ProposalProcessors", "previousSaved"), 1,
+		"isaac.(*ProposalProcessors).save", "isaac.NewProposalProcessors")
+	c.Rule("R11.2i", "LockHeld")
+	if fn := c.Need("isaac.(*ProposalProcessors).Save"); fn != nil {
+		c.Held(fn, nil, "call save under pps.l", c.CallsD(fn, "pps.save(*)"), 1, "&pps.l", LW)
+		c.ArgIs(fn, "call save: same fact hash", c.CallsD(fn, "pps.save(*)"), 1, 1, "facthash")
+		c.ArgIs(fn, "call save: same voteproof", c.CallsD(fn, "pps.save(*)"), 1, 2, "avp")
+		c.Rule("R11.2j", "MustPass")
+		c.MP(fn, "success exit: save succeeded", c.SuccessReturns(fn), 1, GOk("pps.save(*)"))
+	}
+	c.Rule("R11.2k", "WhoMayCall")
+	c.OnlyIn("call ProposalProcessors.save", c.WhoCalls("(*isaac.ProposalProcessors).save"), 1,
+		"isaac.(*ProposalProcessors).Save")
+	// R11.3 --------------------------------------------------------------------------------
+	if fn := c.Need("isaac.(*DefaultProposalProcessor).Save"); fn != nil {
+		inner := c.CallsD(fn, "p.save(*)")
+		c.Rule("R11.3a", "MustPass")
+		c.MP(fn, "inner save: not yet saved", inner, 1, GFalse("p.issaved"))
+		c.MP(fn, "inner save: not canceled", inner, 1, GFalse("p.isCanceled()"))
+		c.MP(fn, "inner save: issaved set first", inner, 1, GStored("&p.issaved"))
+		c.StoredIs(fn, "store issaved: true", c.StoresD(fn, "&p.issaved"), 1, "true")
+		c.MP(fn, "success exit: inner save succeeded", c.SuccessReturns(fn), 1, GOk("p.save(*)"))
+		c.ArgIs(fn, "inner save: the same voteproof", inner, 1, 1, "avp")
+		c.Rule("R11.3b", "LockHeld")
+		c.Held(fn, nil, "inner save under processlock", inner, 1, "&p.processlock", LW)
+		c.Held(fn, nil, "store issaved under processlock", c.StoresD(fn, "&p.issaved"), 1, "&p.processlock", LW)
+	}
+	if fn := c.Need("isaac.(*DefaultProposalProcessor).Process"); fn != nil {
+		inner := c.CallsD(fn, "p.process(*)")
+		c.Rule("R11.3c", "MustPass")
+		c.MP(fn, "inner process: not yet processed", inner, 1, GFalse("p.isprocessed"))
+		c.MP(fn, "inner process: not canceled", inner, 1, GFalse("p.isCanceled()"))
+		c.MP(fn, "store manifest: process succeeded", c.StoresD(fn, "&p.manifest"), 1, GOk("p.process(*)"))
+		c.StoredIs(fn, "store manifest: result of process", c.StoresD(fn, "&p.manifest"), 1, "p.process(*)#0")
+		c.MP(fn, "store isprocessed: process succeeded", c.StoresD(fn, "&p.isprocessed"), 1, GOk("p.process(*)"))
+		c.Rule("R11.3d", "LockHeld")
+		c.Held(fn, nil, "inner process under processlock", inner, 1, "&p.processlock", LW)
+		c.Held(fn, nil, "store manifest under processlock", c.StoresD(fn, "&p.manifest"), 1, "&p.processlock", LW)
+	}
+	c.Rule("R11.3e", "WhoMayWrite")
+	c.OnlyIn("store DefaultProposalProcessor.manifest", c.WhoStores("DefaultProposalProcessor", "manifest"), 1,
+		"isaac.(*DefaultProposalProcessor).Process")
+	c.OnlyIn("store DefaultProposalProcessor.issaved", c.WhoStores("DefaultProposalProcessor", "issaved"), 1,
+		"isaac.(*DefaultProposalProcessor).Save")
+	c.OnlyIn("call DefaultProposalProcessor.save", c.WhoCalls("(*isaac.DefaultProposalProcessor).save"), 1,
+		"isaac.(*DefaultProposalProcessor).Save")
+	// R11.4 --------------------------------------------------------------------------------
+	c.Rule("R11.4", "MustPass")
+	sb := c.WhoCalls("(*isaac/states.voteproofHandler).saveBlock")
+	c.Floor(nil, "saveBlock call sites", len(sb), 2)
+	for _, s := range sb {
+		c.MP(s.Fn, "call saveBlock: result is MAJORITY", []ssaInstr{s.In}, 1,
+			GCmp("avp.Result()", "==", "\"MAJORITY\""))
+		c.ArgIs(s.Fn, "call saveBlock: the tested voteproof", []ssaInstr{s.In}, 1, 0, "avp")
+	}
+	if fn := c.Need("isaac/states.(*voteproofHandler).handleACCEPTVoteproofAfterProcessingProposal"); fn != nil {
+		c.MP(fn, "call saveBlock: manifest hash == majority new block", c.CallsD(fn, "st.saveBlock(*)"), 1,
+			GTrue("manifest.Hash().Equal(avp.BallotMajority().NewBlock())"))
+	}
+	if fn := c.Need("isaac/states.(*voteproofHandler).saveBlock"); fn != nil {
+		sv := c.CallsTo(fn, "(*isaac.ProposalProcessors).Save")
+		c.ArgIs(fn, "ProposalProcessors.Save: fact hash is the majority's proposal", sv, 1, 1, "avp.BallotMajority().Proposal()")
+		c.ArgIs(fn, "ProposalProcessors.Save: the same voteproof", sv, 1, 2, "avp")
+		c.MP(fn, "saved=true exit: Save succeeded", c.ReturnsD(fn, 0, "true"), 1, GOk("*.ProposalProcessors.Save(*)"))
+	}
+	// R11.5 --------------------------------------------------------------------------------
+	c.Rule("R11.5", "WhoMayCall")
+	c.OnlyIn("call BlockWriter.Save", c.WhoCalls("(isaac.BlockWriter).Save"), 1,
+		"isaac.(*DefaultProposalProcessor).save")
+	c.OnlyIn("call ProposalProcessor.Save", c.WhoCalls("(isaac.ProposalProcessor).Save"), 1,
+		"isaac.(*ProposalProcessors).save")
+	c.OnlyIn("call ProposalProcessors.Save", c.WhoCalls("(*isaac.ProposalProcessors).Save"), 1,
+		"isaac/states.(*voteproofHandler).saveBlock")
 }
